@@ -447,12 +447,16 @@ def _replace_task(old_name, new_name, types, extra_label):
                            "entries of other nodes untouched")
 
 
+def replace_tasks():
+    """replace_op: index entries, node payload and the openQASM header bookkeeping (`_openqasm_update(new_operation)` is called exactly
+    once, for the NEW operation, also when old and new operation have the same class) - used by C12 / C04 and by C14"""
+    return [_replace_task(old_name, new_name, types, lab) for old_name, new_name, types, lab in
+            [("Hadamard", "Hadamard", ("e",), "Fixed"), ("Hadamard", "Hadamard", ("p",), None), ("CNOT", "CNOT", ("e", "p"), "Fixed"),
+             ("CNOT", "CNOT", ("e", "e"), None), ("MeasurementZ", "MeasurementZ", ("e",), "Fixed")]]
+
+
 def tasks(tier="quick"):
-    T = []
-    for old_name, new_name, types, lab in [("Hadamard", "Hadamard", ("e",), "Fixed"), ("Hadamard", "Hadamard", ("p",), None),
-                                           ("CNOT", "CNOT", ("e", "p"), "Fixed"),
-                                           ("CNOT", "CNOT", ("e", "e"), None), ("MeasurementZ", "MeasurementZ", ("e",), "Fixed")]:
-        T.append(_replace_task(old_name, new_name, types, lab))
+    T = replace_tasks()
     for t in "epc":
         for kind in ("new", "existing", "gap"):
             T.append(_reg_task(kind, t))
